@@ -177,6 +177,15 @@ func c13TemplateInputs(rng *rand.Rand, reps int) []hostileInput {
 				label = "unknown-command"
 			}
 			out = append(out, hostileInput{kind: "cmd", cmds: [][]string{args}, label: label, heavy: heavy})
+			if k == 0 {
+				// the same command cut short after every word: an option keyword without its value, a missing
+				// mandatory argument, a sub-command alone (the argument parser sees the end of input in every state)
+				for n := 1; n < len(args); n++ {
+					out = append(out, hostileInput{kind: "cmd", cmds: [][]string{append([]string{}, args[:n]...)}, label: label, heavy: heavy})
+				}
+				// ... and with its last word given twice
+				out = append(out, hostileInput{kind: "cmd", cmds: [][]string{append(append([]string{}, args...), args[len(args)-1])}, label: label, heavy: heavy})
+			}
 		}
 	}
 	return out
